@@ -29,6 +29,7 @@ Ltac tie :=
     | |- Rfloor _ = Rfloor _ => apply f_equal; tie
     end
   | lra
+  | ring
   | match goal with
     | |- _ + _ = _ + _ => apply f_equal2; tie
     | |- _ - _ = _ - _ => apply f_equal2; tie
